@@ -830,6 +830,56 @@ def _prime_factors(n: int):
     return out
 
 
+POSITIVE = set()     # keys of primitive polynomials declared positive by an obligation (generic-position domain)
+
+
+def declare_positive(r):
+    """obligation-level domain assumption: the value is > 0, so abs(v) = v and sign(v) = 1"""
+    r = _to_rat(r)
+    c, prim = p_content(r.num)
+    POSITIVE.add(p_key(prim if c > 0 else p_neg(prim)))
+
+
+def p_sqrt_exact(p):
+    """polynomial r with r*r == p, or None (classical leading-term algorithm; exact)"""
+    if not p or len(p) > 80:
+        return None
+    ids = sorted({a for m in p for a, _ in m})
+    order = lambda m: tuple(dict(m).get(a, 0) for a in ids)     # lexicographic: an admissible monomial order
+    lead = max(p, key=order)
+    c = p[lead]
+    if any(e % 2 for _, e in lead):
+        return None
+    rc = _sqrt_fraction(c) if c > 0 else None
+    if rc is None:
+        return None
+    r1m = tuple((a, e // 2) for a, e in lead)
+    r = {r1m: rc}
+    for _ in range(len(p) + 2):
+        rem = p_add(p, p_mul(r, r), -1)
+        if not rem:
+            return r
+        lt = max(rem, key=order)
+        # t = lt / (2 * r1)
+        d = dict(lt)
+        ok = True
+        for a, e in r1m:
+            if d.get(a, 0) < e:
+                ok = False
+                break
+            d[a] -= e
+            if not d[a]:
+                del d[a]
+        if not ok:
+            return None
+        tm = tuple(sorted(d.items()))
+        if tm in r:
+            return None
+        r = dict(r)
+        r[tm] = rem[lt] / (2 * rc)
+    return None
+
+
 def _sqrt_poly(p) -> Rat:
     """sqrt of a polynomial, canonicalised: rational content and even monomial
     powers are pulled out; the remainder becomes one sqrt atom."""
@@ -872,7 +922,10 @@ def _sqrt_poly(p) -> Rat:
             a = _ATOMS[m[0][0]]
             if a.kind == "fn" and a.name == "sqrt":
                 pass
-    # perfect square detection for the common binomial/trinomial squares is not attempted
+    if len(prim) >= 3:
+        root = p_sqrt_exact(prim)
+        if root is not None:
+            return out * absf(Rat(root))
     return out * fn_atom("sqrt", Rat(prim))
 
 
@@ -906,6 +959,8 @@ def absf(x) -> Rat:
     def abs_poly(p):
         cc, prim = p_content(p)
         out = const(abs(cc))
+        if p_key(prim) in POSITIVE:
+            return out * Rat(prim)
         if p_is_const(prim):
             return out * const(abs(prim[ONE_M]))
         if len(prim) == 1:
@@ -932,6 +987,8 @@ def sign(x) -> Rat:
     def sign_poly(p):
         cc, prim = p_content(p)
         out = const(1 if cc > 0 else -1)
+        if p_key(prim) in POSITIVE:
+            return out
         if p_is_const(prim):
             return out
         if len(prim) == 1:
